@@ -190,11 +190,14 @@ def build(S, spec):
             W.apps[i].evicted = True
     # server states (after placement, as the loader does)
     W.since = {}
+    W.down_since = {}
     for j, sv in enumerate(spec['servers']):
         st = sv.get('state', 'up')
         if st != 'up':
             since = S.int('since%d' % j, NOW - TSPAN, NOW)
             W.since[j] = since
+            if st == 'down':
+                W.down_since[j] = since
             W.servers[j].set_state(sch.State(st), since)
     _wrap(W)
     return W
@@ -288,8 +291,11 @@ def apply_event(W, ev):
         cell.add_app(W.allocs[key], W.apps[i])
     elif kind == 'server_state':
         j, st = ev[1], ev[2]
-        since = S.int('ev_since', NOW - TSPAN, NOW)
+        since = S.int('ev_since%d' % getattr(W, 'nev', 0), NOW - TSPAN, NOW)
+        W.nev = getattr(W, 'nev', 0) + 1
         W.since[j] = since
+        if st == 'down' and W.servers[j].state is not sch.State.down:
+            W.down_since[j] = since
         W.servers[j].set_state(sch.State(st), since)
     elif kind == 'remove_server':
         j = ev[1]
@@ -497,4 +503,228 @@ def pre_info(W):
             'identity_invalid': (grp is not None and (
                 app.identity is None or app.identity >= grp.count)),
         }
+    return out
+
+
+# ---------------------------------------------------------------- C03
+
+def c03_oracle(W, placement, pre_state, tag=''):
+    S, sch = W.S, W.sch
+    mem = W.cell.members()
+    for (name, sb, _eb, sa, _ea) in placement:
+        app = W.cell.apps.get(name)
+        if app is None or sa is None or sa == sb:
+            continue
+        srv = mem.get(sa)
+        S.check('C03:assigned_to_unknown_server' + tag, srv is not None,
+                {'app': name, 'server': sa})
+        S.reach('new_assignment')
+        S.check('C03:assigned_to_server_that_is_not_up' + tag,
+                pre_state.get(sa) == 'up' and srv.state is sch.State.up,
+                {'app': name, 'server': sa, 'state': str(srv.state)})
+        if app.allocation is not None:
+            S.check('C03:assigned_outside_partition' + tag,
+                    app.allocation.label in srv.labels,
+                    {'app': name, 'server': sa})
+        S.check('C03:assigned_without_required_traits' + tag,
+                (srv.traits.self_traits & app.traits) == app.traits,
+                {'app': name, 'server': sa, 'traits': app.traits})
+        if app.lease:
+            S.reach('new_assignment_with_lease')
+            S.check('C03:lease_outlives_server' + tag,
+                    S.z(VT.now + app.lease) < S.z(srv.valid_until),
+                    {'app': name, 'server': sa})
+    for name, app in W.cell.apps.items():
+        if app.server is None:
+            continue
+        srv = mem.get(app.server)
+        if srv is None:
+            continue
+        if app.allocation is not None:
+            S.check('C03:placed_instance_on_foreign_partition' + tag,
+                    app.allocation.label in srv.labels,
+                    {'app': name, 'server': app.server,
+                     'label': app.allocation.label})
+        S.check('C03:placed_instance_lacks_traits' + tag,
+                (srv.traits.self_traits & app.traits) == app.traits,
+                {'app': name, 'server': app.server})
+
+
+def server_states(W):
+    return {n: s.state.value for n, s in W.cell.members().items()}
+
+
+# ---------------------------------------------------------------- C04
+
+def true_affinity_counts(node):
+    import collections
+    c = collections.Counter()
+    for srv in node.members().values():
+        for app in srv.apps.values():
+            c[app.affinity.name] += 1
+    return c
+
+
+def c04_oracle(W, tag='', assume=False):
+    """Limits at every level + counters equal true counts.  With assume=True
+    the same conditions are taken as an assumption on the pre-state."""
+    S = W.S
+    for node in all_nodes(W):
+        true = true_affinity_counts(node)
+        if not assume:
+            for aff in set(true) | set(node.affinity_counters):
+                S.check('C04:affinity_counter_differs_from_true_count' + tag,
+                        node.affinity_counters[aff] == true[aff],
+                        {'node': node.name, 'affinity': aff,
+                         'counter': node.affinity_counters[aff],
+                         'true': true[aff]})
+        for srv in node.members().values():
+            for app in srv.apps.values():
+                limit = app.affinity.limits[node.level]
+                ok = true[app.affinity.name] <= limit
+                if assume:
+                    S.assume(ok)
+                else:
+                    S.check('C04:affinity_limit_exceeded' + tag, ok,
+                            {'node': node.name, 'level': node.level,
+                             'affinity': app.affinity.name,
+                             'count': true[app.affinity.name],
+                             'limit': limit})
+
+
+# ---------------------------------------------------------------- C05
+
+def c05_oracle(W, tag=''):
+    S = W.S
+    cell = W.cell
+    by_group = {}
+    for name, app in cell.apps.items():
+        if not app.identity_group:
+            continue
+        by_group.setdefault(app.identity_group, []).append(app)
+    for gname, apps in by_group.items():
+        grp = cell.identity_groups.get(gname)
+        count = grp.count if grp is not None else 0
+        held = {}
+        for app in apps:
+            S.check('C05:instance_refers_to_stale_group_object' + tag,
+                    grp is None or app.identity_group_ref is grp,
+                    {'app': app.name, 'group': gname})
+            if app.identity is not None:
+                S.reach('identity_held')
+                S.check('C05:duplicate_identity' + tag,
+                        app.identity not in held,
+                        {'app': app.name, 'other': held.get(app.identity),
+                         'identity': app.identity})
+                held[app.identity] = app.name
+                S.check('C05:identity_out_of_range' + tag,
+                        0 <= app.identity < count,
+                        {'app': app.name, 'identity': app.identity,
+                         'count': count})
+                if app.server is None:
+                    S.reach('unplaced_with_identity')
+                S.check('C05:unplaced_instance_holds_identity' + tag,
+                        app.server is not None,
+                        {'app': app.name, 'identity': app.identity})
+            else:
+                S.check('C05:placed_instance_without_identity' + tag,
+                        app.server is None, {'app': app.name})
+        if grp is not None:
+            S.check('C05:available_set_wrong' + tag,
+                    set(grp.available) == set(range(count)) - set(held),
+                    {'group': gname, 'available': sorted(grp.available),
+                     'held': sorted(held), 'count': count})
+
+
+# ---------------------------------------------------------------- C08
+
+def c08_oracle(W, pre, placement, tag=''):
+    """pre: {name: dict(server, state, since(z3/int), timeout, flags)}."""
+    import sys as _sys
+    S = W.S
+    after = {n: sa for (n, _sb, _eb, sa, _ea) in placement}
+    now = VT.now
+    expiries = []
+    for name, info in pre.items():
+        app = W.cell.apps.get(name)
+        if app is None or name not in after:
+            continue
+        st = info['state']
+        if info['blacklisted']:
+            S.check('C08:blacklisted_instance_is_placed' + tag,
+                    after[name] is None, {'app': name})
+            S.reach('blacklisted_kept_off')
+            continue
+        if info['server'] is None:
+            continue
+        if app.final_rank == _sys.maxsize or info['identity_invalid'] \
+                or info['renew']:
+            continue
+        if st == 'down':
+            to = info['timeout']
+            since = info['since']
+            if to is None:
+                exp = S.z(0)
+            else:
+                exp = S.z(since) + S.z(to)
+            kept = after[name] == info['server']
+            if kept:
+                S.reach('kept_on_down_server')
+                S.check('C08:kept_on_down_server_after_retention' + tag,
+                        exp > now, {'app': name})
+                expiries.append(exp)
+            else:
+                S.reach('moved_off_down_server')
+                S.check('C08:lost_placement_before_retention_expired' + tag,
+                        exp <= now, {'app': name, 'after': after[name]})
+        elif st == 'frozen':
+            if info['unschedule']:
+                S.reach('unschedule_on_frozen')
+                continue
+            S.reach('on_frozen_server')
+            S.check('C08:instance_taken_off_frozen_server' + tag,
+                    after[name] == info['server'],
+                    {'app': name, 'after': after[name]})
+    for (name, sb, _eb, sa, _ea) in placement:
+        if sa is not None and sa != sb:
+            st = pre['__servers__'].get(sa)
+            S.check('C08:new_instance_on_frozen_or_down_server' + tag,
+                    st == 'up', {'app': name, 'server': sa, 'state': st})
+    # eviction branch never touches a server that is not up
+    for (op, sname, aname, branch) in W.log:
+        if branch == 'fp:evict_put' or (op == 'remove' and
+                                        branch.startswith('fp:') and
+                                        'evicted_app_server.remove' in branch):
+            S.check('C08:eviction_branch_used_non_up_server' + tag,
+                    pre['__servers__'].get(sname) == 'up',
+                    {'server': sname, 'app': aname, 'op': op})
+    # next_event_at is the earliest pending expiry
+    nea = W.cell.next_event_at
+    if expiries:
+        m = expiries[0]
+        for e in expiries[1:]:
+            m = z3.If(e < m, e, m)
+        is_inf = type(nea).__name__ == '_Inf' or (
+            isinstance(nea, float) and nea == float('inf'))
+        S.check('C08:next_event_missing' + tag, not is_inf)
+        if not is_inf:
+            # waking up earlier than needed is harmless (an instance that was
+            # also blacklisted may have contributed its expiry)
+            S.check('C08:next_event_later_than_earliest_retention_expiry' + tag,
+                    S.z(nea) <= m)
+
+
+def c08_pre(W):
+    out = pre_info(W)
+    mem = W.cell.members()
+    for name, app in W.cell.apps.items():
+        srv = mem.get(app.server) if app.server else None
+        out[name]['state'] = srv.state.value if srv is not None else None
+        out[name]['since'] = None
+        if srv is not None and srv.state is W.sch.State.down:
+            j = W.servers.index(srv)
+            out[name]['since'] = W.down_since[j]
+        out[name]['timeout'] = app.data_retention_timeout
+        out[name]['unschedule'] = app.unschedule
+    out['__servers__'] = {n: s.state.value for n, s in mem.items()}
     return out
